@@ -730,13 +730,13 @@ fn codec_selector(c: &SelCase) -> CaseResult {
 }
 
 pub fn register(r: &mut Run) {
-    r.subcheck("bitpack", r.cases(20_000, 1_000_000), bitpack_case, bitpack);
-    r.subcheck("delta_unsigned", r.cases(20_000, 1_000_000), sorted_u64_seq, delta_unsigned);
-    r.subcheck("delta_signed", r.cases(20_000, 1_000_000), i64_seq, delta_signed);
-    r.subcheck("delta_bitpacked", r.cases(20_000, 1_000_000), sorted_u64_seq, delta_bitpacked);
-    r.subcheck("rle", r.cases(20_000, 1_000_000), rle_case, rle);
-    r.subcheck("rle_signed", r.cases(10_000, 500_000), || prop_oneof![runs_i64_seq(), i64_seq()], rle_signed);
-    r.subcheck("dictionary", r.cases(20_000, 1_000_000), dict_case, dictionary);
-    r.subcheck("bitvec", r.cases(20_000, 1_000_000), bv_case, bitvec);
-    r.subcheck("codec_selector", r.cases(20_000, 1_000_000), sel_case, codec_selector);
+    r.subcheck("bitpack", r.cases(20_000, 2_000_000), bitpack_case, bitpack);
+    r.subcheck("delta_unsigned", r.cases(20_000, 2_000_000), sorted_u64_seq, delta_unsigned);
+    r.subcheck("delta_signed", r.cases(20_000, 2_000_000), i64_seq, delta_signed);
+    r.subcheck("delta_bitpacked", r.cases(20_000, 2_000_000), sorted_u64_seq, delta_bitpacked);
+    r.subcheck("rle", r.cases(20_000, 2_000_000), rle_case, rle);
+    r.subcheck("rle_signed", r.cases(10_000, 1_000_000), || prop_oneof![runs_i64_seq(), i64_seq()], rle_signed);
+    r.subcheck("dictionary", r.cases(20_000, 2_000_000), dict_case, dictionary);
+    r.subcheck("bitvec", r.cases(20_000, 2_000_000), bv_case, bitvec);
+    r.subcheck("codec_selector", r.cases(20_000, 2_000_000), sel_case, codec_selector);
 }
